@@ -49,9 +49,9 @@ class FirstExceptionInAll:
         self.result = result
         self.inputs = inputs
 
-    def __bool__(self) -> Any:
-        """Return the result of the ELT evaluation which invalidated the ``all`` quantifier."""
-        return self.result
+    def __bool__(self) -> bool:
+        """Return the truth value of the ELT evaluation which invalidated the ``all`` quantifier."""
+        return bool(self.result)
 
 
 ContextT = TypeVar("ContextT", bound=ast.expr_context)
